@@ -11,7 +11,7 @@ func TestHonest(t *testing.T) {
 	res := hx.NewResult()
 	defer res.Write()
 	var cases []Case
-	for _, rpc := range []string{"ReadSector", "WriteSector", "VerifySector", "SectorRoots", "AppendSectors", "FreeSectors", "FundAccounts", "ReplenishAccounts", "ReplenishPools", "LatestRevision", "AccountBalance"} {
+	for _, rpc := range []string{"ReadSector", "WriteSector", "VerifySector", "SectorRoots", "AppendSectors", "FreeSectors", "FundAccounts", "ReplenishAccounts", "ReplenishPools", "LatestRevision", "AccountBalance", "FormContract", "RenewContract", "RefreshFull", "RefreshPartial"} {
 		for v := 0; v < 4; v++ {
 			cases = append(cases, Case{RPC: rpc, Variant: v, Must: "ok", Info: rpc == "LatestRevision" || rpc == "AccountBalance"})
 		}
